@@ -80,7 +80,8 @@ def oracle(ctx: core.Ctx, recs: list[dict[str, Any]], envs: list[dict[str, Any]]
             ctx.violate(f"unparsable:{op}:{a}|{case.get('b', '')}", f"text {text!r} (result of {op} on {a!r}) is rejected by poetry-core's parser", wit)
             continue
         if MC.split_bits(t2) != xr:
-            ctx.violate(f"text-differs:{op}:{a}|{case.get('b', '')}", f"text {text!r} evaluates differently from the marker it came from", wit)
+            from .c07 import KNOWN_NOTIN, notin_class
+            ctx.violate(KNOWN_NOTIN if notin_class(text) else f"text-differs:{op}:{a}|{case.get('b', '')}", f"text {text!r} evaluates differently from the marker it came from", wit)
             continue
         texts.append((wit, text))
     if texts:
